@@ -310,6 +310,21 @@ func (r *run) settlementCheck(d *delivery, i int, prop string) {
 		}
 		r.viol("C02", "wrong-payout", fmt.Sprintf("seat %d received %d, reference allows %d..%d; contributions=%v fold=%v power=%v changed=%v", k, net, lo[k], hi[k], c, fold, power, changed), i)
 	}
+	// "every layer of the pot goes to the best-ranked hand or hands": the layers
+	// are handed out completely - what the seats receive adds up to what was
+	// put in (per-seat bounds alone are met when every tied winner gets the
+	// rounded-down share and the odd chips go to nobody: seeded change C02-k1)
+	all, paid, put := true, int64(0), int64(0)
+	for k := 0; k < n; k++ {
+		if !got[k] {
+			all = false
+		}
+		paid += changed[k] + c[k]
+		put += c[k]
+	}
+	if all && paid != put {
+		r.viol("C02", "pots-not-handed-out-completely", fmt.Sprintf("the seats put in %d and receive %d; contributions=%v fold=%v power=%v changed=%v", put, paid, c, fold, power, changed), i)
+	}
 	// (The per-pot `Winners[].Withdraw` records are not judged: the engine
 	// leaves out the levels on which a winner merely gets his own chips back,
 	// so they are not the winners' shares. The shares are judged through
